@@ -11,6 +11,8 @@
 (* (n # "-") or an expression position filled by a lambda / comprehension     *)
 (* (ch # 0), written inside the construct of scope c at position kind k.      *)
 (* `def` / `class` sites are both: they bind n in their owner and hold ch.    *)
+(* (Site records may carry a builder weight w, and programs are handed around *)
+(* as Memo(P) = P plus the owner tables op / of - pure memoisation.)          *)
 (*                                                                            *)
 (*   Owner(P, i, view)      which scope a site belongs to                     *)
 (*   Use(k)                 what the site does to its name there              *)
@@ -30,6 +32,14 @@
 (*   PfstFree        'free' = read, never written/deleted, not declared       *)
 (*                   (scope_symbols() docstring), i.e. symtable's             *)
 (*                   referenced /\ ~assigned /\ ~declared - no resolution.    *)
+(*   LocalByStore    'local' lists store nodes only (docstring); a name that  *)
+(*                   is only deleted is local to Python and found under 'del'.*)
+(* Not judged: GlobalAtModule ('local' of a name the module block declares    *)
+(* global), AmbiguousInline (row copied from one of several inlined           *)
+(* comprehensions with different flags - order dependent in CPython).         *)
+(* CPython quirks that belong to the symtable mapping, not to the rules:      *)
+(* GlobalEcho, module-level comprehension walrus = DEF_GLOBAL, `del` and      *)
+(* augmented assignment = DEF_LOCAL without USE.                              *)
 EXTENDS Integers, Sequences, FiniteSets, TLC
 
 NoName == "-"
